@@ -40,7 +40,7 @@ topological order, by induction over that order (`go_inv`).
   the rewritten component;
 * `aggregated_path_ends_where_the_path_ends`, `aggregated_reference_then_text`, `aggregated_path_expansion` — the
   aggregator's text (`compile_component_aggregate`): the file path that follows an aggregated reference is exactly
-  the run of `/segment`s over `[\w.*]`; whatever comes next (`)` `;` `|` `>` … of the surrounding shell text) is
+  the run of `/segment`s over `[\w.*+~@-]`; whatever comes next (`)` `;` `|` `>` … of the surrounding shell text) is
   neither taken into the path nor repeated after every copy, it is scanned as text on its own;
 * `text_refines_graph_partial` — for the repaired code the textual rewriting of a `references` entry of a
   copy equals the rendering of the graph-level rewriting, under two decidable side conditions (see there).
@@ -749,8 +749,8 @@ example : String.ofList (aggText dEx { cEx with agg := true } 2 "A:ref/x.txt BA:
 
 /-! ## the aggregator's text: the file path after an aggregated reference ends where the path ends -/
 
-/-- `(?:/[\w.*]+)+` read at the head of `path ++ tail`, where `path` is `/seg/seg…` (segments = non-empty runs of
-`[\w.*]`) and `tail` is empty or starts with a character that is neither `[\w.*]` nor `/`: exactly `path` is
+/-- `(?:/[\w.*+~@-]+)+` read at the head of `path ++ tail`, where `path` is `/seg/seg…` (segments = non-empty runs of
+`[\w.*+~@-]`) and `tail` is empty or starts with a character that is neither `[\w.*+~@-]` nor `/`: exactly `path` is
 matched, however long `tail` is and whatever it contains. -/
 theorem aggregated_path_ends_where_the_path_ends (segs : List S) (hs : goodSegs segs) (tail : S)
     (ht : tail = [] ∨ ∃ c r, tail = c :: r ∧ endsPath c = true) :
